@@ -3,6 +3,7 @@ package props
 import (
 	"bytes"
 	"crypto/sha512"
+	"encoding/binary"
 	"encoding/json"
 	"fmt"
 	mrand "math/rand"
@@ -41,13 +42,16 @@ type ecase struct {
 	Policy   ref.Policy  `json:"policy"`
 	MustFail bool        `json:"must_fail"`
 	MustPass bool        `json:"must_pass"`
-	Twin     *world.Case `json:"-"` // the unbroken case of the same world
+	Log      []byte      `json:"log,omitempty"` // event log to parse (nil: the repository's sample log)
+	Twin     *world.Case `json:"-"`             // the unbroken case of the same world
 }
 
 // refReplay replays the sample event log with an own extend loop over upstream's event parser:
 // returns which RTMRs have events and the register values the log implies.
-func refReplay() (measured [4]bool, regs [4][]byte, err error) {
-	el, err := tcg.ParseEventLog(ccelData, tcg.ParseOpts{AllowPadding: true})
+func refReplay() (measured [4]bool, regs [4][]byte, err error) { return refReplayOf(ccelData) }
+
+func refReplayOf(log []byte) (measured [4]bool, regs [4][]byte, err error) {
+	el, err := tcg.ParseEventLog(log, tcg.ParseOpts{AllowPadding: true})
 	if err != nil {
 		return measured, regs, err
 	}
@@ -93,6 +97,14 @@ func ccelProblemWith(c *ecase, measured [4]bool, regs [4][]byte, shared *verify.
 		shared.GetCollateral, shared.CheckRevocations, shared.Getter, shared.Now, shared.TrustedRoots = vo.GetCollateral, vo.CheckRevocations, g, vo.Now, vo.TrustedRoots
 		vo = shared
 	}
+	log := ccelData
+	if c.Log != nil {
+		log = c.Log
+		var err error
+		if measured, regs, err = refReplayOf(log); err != nil {
+			return "harness: own parser refuses the case's event log: " + err.Error(), false
+		}
+	}
 	po := toOptions(&c.Policy)
 	m := mon.MessageFor("built", c.V.Quote)
 	var anyq any = m
@@ -102,7 +114,7 @@ func ccelProblemWith(c *ecase, measured [4]bool, regs [4][]byte, shared *verify.
 	var err error
 	var stNil bool
 	pv, st := mon.Guard(func() {
-		s, e := rtmr.ParseCcelWithTdQuote(ccelData, ccelTable, anyq, &rtmr.ParseTdxCcelOpts{Validation: po, Verification: vo, ExtractOpt: extract.Opts{Loader: extract.GRUB}})
+		s, e := rtmr.ParseCcelWithTdQuote(log, ccelTable, anyq, &rtmr.ParseTdxCcelOpts{Validation: po, Verification: vo, ExtractOpt: extract.Opts{Loader: extract.GRUB}})
 		err, stNil = e, s == nil
 	})
 	if pv != "" {
@@ -313,6 +325,51 @@ func c18(x *mon.Ctx) {
 			add(w, world.LBase, "rtmr-swapped", "0<->1", ref.Policy{}, measured[0] || measured[1], false)
 		}
 	}
+	// ---- the sample log extended by further events (the sample measures RTMR 0..2 only): every register the EXTENDED log has
+	//      events for must match its replay
+	for _, lv := range []struct {
+		name string
+		idx  []uint32 // CC measurement register index of each appended event (RTMR i = index i+1)
+	}{{"one-event-rtmr3", []uint32{4}}, {"two-events-rtmr3", []uint32{4, 4}}, {"events-rtmr2-rtmr3-rtmr2", []uint32{3, 4, 3}}} {
+		log := appendEvents(ccelData, lv.idx)
+		if log == nil {
+			x.Broken("no room in the sample log area for the events of " + lv.name)
+			continue
+		}
+		m2, r2, err := refReplayOf(log)
+		if err != nil || !m2[3] {
+			x.Broken(fmt.Sprintf("harness: extended log %s does not parse / does not measure RTMR3: %v", lv.name, err))
+			continue
+		}
+		wl := base.Clone()
+		for i := 0; i < 4; i++ {
+			if m2[i] {
+				copy(wl.Q.Body[328+48*i:], r2[i])
+			}
+		}
+		wl.Requote()
+		addL := func(w *world.World, class, param string, mustFail, mustPass bool) {
+			cases = append(cases, &ecase{V: w.Case(world.LBase, class, lv.name+"/"+param), Policy: ref.Policy{}, MustFail: mustFail, MustPass: mustPass, Log: log})
+		}
+		addL(wl, "extended-log/twin", "", false, true)
+		for i := 0; i < 4; i++ {
+			for b := i % 8; b < 384; b += x.Pick(8, 1) {
+				w := wl.Clone()
+				w.Q.Body[328+48*i+b/8] ^= 1 << uint(b%8)
+				w.Requote()
+				addL(w, fmt.Sprintf("extended-log/rtmr%d-bitflip", i), fmt.Sprint("bit", b), m2[i], false)
+			}
+			for name, val := range map[string][]byte{"all-zero": make([]byte, 48), "sample-quote-value": sq.Rtmrs[i]} {
+				if bytes.Equal(val, wl.Q.Body[328+48*i:328+48*(i+1)]) {
+					continue
+				}
+				w := wl.Clone()
+				copy(w.Q.Body[328+48*i:], val)
+				w.Requote()
+				addL(w, fmt.Sprintf("extended-log/rtmr%d-special-value", i), name, m2[i], false)
+			}
+		}
+	}
 	x.Each(len(cases), func(i int) {
 		c := cases[i]
 		x.Crumb(i, "ccel", c)
@@ -366,6 +423,8 @@ func c18(x *mon.Ctx) {
 		}
 	}
 	x.Require("twin", 3, 0, 3)
+	x.Require("extended-log/twin", 3, 0, 3)
+	x.Require("extended-log/rtmr3-bitflip", 0, 3*48, 3*48)
 	x.Require("verify-fault", 0, 60, 60)
 	x.Require("policy-mismatch", 0, 30, 30)
 	for i := 0; i < 4; i++ {
@@ -373,4 +432,32 @@ func c18(x *mon.Ctx) {
 			x.Require(fmt.Sprintf("rtmr%d-bitflip", i), 0, 96, 96)
 		}
 	}
+}
+
+// appendEvents writes crypto-agile (SHA-384) events for the given measurement-register indexes behind the last event of the
+// log, in front of its 0xFF padding; nil when the log area has no room.
+func appendEvents(log []byte, idx []uint32) []byte {
+	end := len(log)
+	for end > 0 && log[end-1] == 0xFF {
+		end--
+	}
+	out := append([]byte(nil), log...)
+	for n, ix := range idx {
+		data := []byte(fmt.Sprintf("verif: appended measurement %d", n))
+		d := sha512.Sum384(data)
+		var ev []byte
+		ev = binary.LittleEndian.AppendUint32(ev, ix)
+		ev = binary.LittleEndian.AppendUint32(ev, uint32(tcg.EventTag))
+		ev = binary.LittleEndian.AppendUint32(ev, 1)
+		ev = binary.LittleEndian.AppendUint16(ev, 0x000C) // TPM_ALG_SHA384
+		ev = append(ev, d[:]...)
+		ev = binary.LittleEndian.AppendUint32(ev, uint32(len(data)))
+		ev = append(ev, data...)
+		if end+len(ev) > len(out) {
+			return nil
+		}
+		copy(out[end:], ev)
+		end += len(ev)
+	}
+	return out
 }
